@@ -299,29 +299,31 @@ def macro_lab_c19(pid, tier, seed, rundir, log):
             res["ties_broken"].append("macro-lab C19 item %d: model `%s` vs macro `%s`" % (k, model[k][:160], impl[k][:160]))
             res.setdefault("replay_lines", [cases[k]])
         res["items"].append({"kind": kind, "name": name, "variants": len(vs), "ok": impl[k] == exp})
-    # a deliberately wrong hashed start must fail to compile naming the right value
+    # a deliberately wrong hashed start must fail to compile naming the right value: one bit off, and the value 0 (the
+    # placeholder one writes to make the compiler say the right number; "no start" and "start 0" are different things)
     wrongdir = os.path.join(BUILD, "macrolab", "C19-wrong")
     _lab_crate(wrongdir, DEPS_ERR)
     wname = "Wrong" + _ident(rng)
     right = _hashed_start(wname)[0]
-    with open(os.path.join(wrongdir, "src", "main.rs"), "w") as f:
-        wargs = ["hash_error_code_start = %d" % (right ^ 1)]
-        wr = rng.randrange(3)
-        if wr == 1:
-            wargs.append("solana_program_error = \"solana_program_error\"")
-        elif wr == 2:
-            wargs.insert(0, "solana_program_error = \"solana_program_error\"")
-        f.write("use spl_program_error::*;\n#[spl_program_error(%s)]\npub enum %s {\n    #[error(\"a\")]\n    A,\n}\nfn main() {}\n" % (", ".join(wargs), wname))
-    rc, out = _sh(["cargo", "build", "--offline", "--quiet"], cwd=wrongdir)
-    log.write("$ cargo build (wrong hashed start)\n%s\n" % out[-1500:])
-    res["evaluations"] += 1
-    if rc == 0:
-        res["violations"].append("a wrong declared hash_error_code_start compiled (enum %s, declared %d, right %d)" % (wname, right ^ 1, right))
-        res["replay_lines"] = ["enumdesc spl_hash %s %d A:-:61" % (wname, right ^ 1)]
-    elif str(right) not in out:
-        res["violations"].append("the compile error for a wrong hash_error_code_start does not name the right value %d" % right)
-        res["replay_lines"] = ["enumdesc spl_hash %s %d A:-:61" % (wname, right ^ 1)]
-    res["summary"] = "%d generated enums compiled and run (+1 wrong-start crate must fail)" % len(items)
+    for declared in (right ^ 1, 0):
+        with open(os.path.join(wrongdir, "src", "main.rs"), "w") as f:
+            wargs = ["hash_error_code_start = %d" % declared]
+            wr = rng.randrange(3)
+            if wr == 1:
+                wargs.append("solana_program_error = \"solana_program_error\"")
+            elif wr == 2:
+                wargs.insert(0, "solana_program_error = \"solana_program_error\"")
+            f.write("use spl_program_error::*;\n#[spl_program_error(%s)]\npub enum %s {\n    #[error(\"a\")]\n    A,\n}\nfn main() {}\n" % (", ".join(wargs), wname))
+        rc, out = _sh(["cargo", "build", "--offline", "--quiet"], cwd=wrongdir)
+        log.write("$ cargo build (wrong hashed start %d)\n%s\n" % (declared, out[-1500:]))
+        res["evaluations"] += 1
+        if rc == 0:
+            res["violations"].append("a wrong declared hash_error_code_start compiled (enum %s, declared %d, right %d)" % (wname, declared, right))
+            res["replay_lines"] = ["enumdesc spl_hash %s %d A:-:61" % (wname, declared)]
+        elif str(right) not in out:
+            res["violations"].append("the compile error for a wrong hash_error_code_start (%d) does not name the right value %d" % (declared, right))
+            res["replay_lines"] = ["enumdesc spl_hash %s %d A:-:61" % (wname, declared)]
+    res["summary"] = "%d generated enums compiled and run (+2 wrong-start crates must fail)" % len(items)
     res["histogram"] = {"kinds": {k: sum(1 for it in items if it[0] == k) for k in ("spl", "spl_hash", "derive", "tostr", "spl_crate")}}
     return res
 
